@@ -2066,7 +2066,7 @@ theorem plus_den (ct : ClassTable) : ∀ (p : Spec) (t r : V), wfV t = true →
               have hpre := defaultsRef_prefix _ _ _ _ hd
               rw [hl] at hpre
               rw [hpre, hd]
-              exact ⟨hall, beqPairs_refl res'⟩
+              exact ⟨hall, valEq_refl _⟩
           · simp at h
     | _ => simp [vreject] at h
   | .t e, t, r, hw, h => plus_leaf ct (.t e) t r rfl hw h
